@@ -30,7 +30,21 @@ enum HOp { Copy(usize), Edit(usize, usize), Reparse(usize), Walk(usize), Delete(
 
 struct Handle { text: Vec<u8>, tree: Tree }
 
+/// Per-language text appended at the end of the document (behind a gap, several elements at once): the elements extend
+/// the last repetition of the old tree, whose nodes the re-parse reuses and re-balances. Set once per language by the
+/// explorer (a relaxed atomic, so that the free-running race-detector pass gains no ordering from it).
+static TAIL: std::sync::atomic::AtomicUsize = std::sync::atomic::AtomicUsize::new(0);
+const TAILS: [(&str, &[u8]); 7] = [("", b""), ("stmts", b"  e f g"), ("indent", b" f\n g\n h\n"), ("arith", b" +4+5+6"), ("pstring", b"  e f g"), ("modal", b"  e f g"), ("colm", b"  e ! g")];
+fn set_tail(lang: &str) { TAIL.store(TAILS.iter().position(|t| t.0 == lang).unwrap_or(0), std::sync::atomic::Ordering::Relaxed); }
+
 fn edits_for(text: &[u8]) -> Vec<Edit> {
+    let mut v = edits_for_base(text);
+    let tail = TAILS[TAIL.load(std::sync::atomic::Ordering::Relaxed)].1;
+    if !tail.is_empty() { v.push(Edit { start: text.len(), old_len: 0, ins: tail.to_vec() }); }
+    v
+}
+
+fn edits_for_base(text: &[u8]) -> Vec<Edit> {
     let n = text.len();
     let mut v = vec![Edit { start: 0, old_len: 0, ins: b"a;".to_vec() }, Edit { start: n, old_len: 0, ins: b" b;".to_vec() }];
     if n > 0 { v.push(Edit { start: 0, old_len: 1, ins: vec![] }); v.push(Edit { start: n / 2, old_len: 1, ins: vec![] }); v.push(Edit { start: n / 2, old_len: 0, ins: b"\n".to_vec() }); v.push(Edit { start: n - 1, old_len: 1, ins: b"x".to_vec() }); v.push(Edit { start: 0, old_len: 1.min(n), ins: b"z".to_vec() }); }
@@ -287,14 +301,17 @@ fn c08b(ctx: &Ctx, info: &LangInfo, h: &Harness, bound: usize, res: &mut ShardRe
 fn docs_for(name: &str) -> Vec<&'static str> {
     // (indent / pstring: the last documents nest deep enough for external scanner states of more than 24 bytes, which
     // tokens keep on the heap; a copied token must own its copy)
-    if name == "indent" { return vec!["a:\n b\nc\n", Box::leak(crate::zoo::deep_indent_doc(26).into_boxed_str())]; }
+    // (a body of five statements: a node whose last child is a long repetition)
+    if name == "indent" { return vec!["a:\n b\nc\n", "a:\n b\n c\n d\n e\n k\n\n\n", Box::leak(crate::zoo::deep_indent_doc(26).into_boxed_str())]; }
     if name == "pstring" { return vec!["%(a(b)c) d", Box::leak(crate::zoo::deep_pstring_doc(9).into_boxed_str())]; }
     match name {
         // (last: a multi-line comment token, i.e. a heap leaf, that is a rule member after '@' and an extra without it)
-        "stmts" => vec!["a; b;", "let a = 1; { b; c; } d;", "a;b;c;d;e;f;g;h;i;j;k;l;m;n;o;p;", "@ /*a\nb*/ x;"],
+        "stmts" => vec!["a; b;", "let a = 1; { b; c; } d;", "a;b;c;d;e;f;g;h;i;j;k;l;m;n;o;p;", "@ /*a\nb*/ x;", "use a b c d x y   "],
         "arith" => vec!["1+2*3", "f(1,2,3,4,5,6,7,8,9)"],
         "jsonish" => vec!["[1,[2,3],{\"a\":4}]"],
         "pstring" => vec!["%(a(b)c) d"],
+        "modal" => vec!["[a] ! [b] c d"],
+        "colm" => vec!["a ! (b @) !\n @ c"],
         _ => vec![],
     }
 }
@@ -313,6 +330,7 @@ fn tsan_pass(ctx: &Ctx, res: &mut ShardResult) {
         let docs = docs_for(z.name);
         if docs.is_empty() { continue; }
         let info = build_info(z);
+        set_tail(z.name);
         for d in &docs {
             for nthreads in [2usize, 3, 4, 8, 16] {
                 idx += 1;
@@ -352,6 +370,7 @@ pub fn worker(ctx: &Ctx, res: &mut ShardResult) {
         let docs = docs_for(z.name);
         if docs.is_empty() { continue; }
         let info = build_info(z);
+        set_tail(z.name);
         for d in &docs {
             idx += 1;
             if ctx.mine(idx) { c08a(ctx, &info, d.as_bytes(), depth, res); }
@@ -418,6 +437,7 @@ pub fn replay(case: &Value) -> Vec<String> {
     let case = if case.get("kind").and_then(|k| k.as_str()) == Some("crash") { &case["case"] } else { case };
     let Some(z) = crate::zoo::by_name(case["lang"].as_str().unwrap_or("")) else { return vec![format!("unknown language in case {}", case)] };
     let info = build_info(&z);
+    set_tail(z.name);
     let doc = crate::util::bytes_from_json(&case["doc"]);
     alloc::install();
     let mut msgs = vec![];
